@@ -1,5 +1,6 @@
 import TantivyModel.Proofs.QueryLists
 import TantivyModel.Proofs.PhraseSlop
+import TantivyModel.Proofs.PhraseExact
 /-
 The leaf classifier of the pinned code (`leafTree`) produces, for every leaf that satisfies
 `leafOk`, exactly the documents of the segment that satisfy the leaf.
@@ -106,13 +107,77 @@ theorem docFreq_zero {docs : List ADoc} {f : Nat} {t : Bytes} (h : docFreq docs 
   have := List.filter_eq_nil_iff.mp (List.eq_nil_of_length_eq_zero h) d hd
   simpa using this
 
+theorem insertByKey_perm (x : Nat × List Nat) (l : List (Nat × List Nat)) : (insertByKey x l).Perm (x :: l) := by
+  induction l with
+  | nil => simp [insertByKey]
+  | cons y r ih =>
+    simp only [insertByKey]
+    split
+    · exact List.Perm.refl _
+    · exact ((List.Perm.cons y ih).trans (List.Perm.swap x y r))
+
+theorem foldl_insertByKey_perm (xs acc : List (Nat × List Nat)) :
+    (xs.foldl (fun acc x => insertByKey x acc) acc).Perm (xs ++ acc) := by
+  induction xs generalizing acc with
+  | nil => simp
+  | cons x xs ih =>
+    simp only [List.foldl_cons, List.cons_append]
+    refine (ih (insertByKey x acc)).trans ?_
+    refine (List.Perm.append_left xs (insertByKey_perm x acc)).trans ?_
+    exact List.perm_middle
+
+/-- the processing order is a permutation of the adjusted position lists -/
+theorem costOrder_perm (docs : List ADoc) (d : ADoc) (f : Nat) (terms : List (Nat × Bytes)) :
+    (costOrder docs d f terms).Perm (adjusted d f (maxOff terms) terms) := by
+  unfold costOrder
+  simp only
+  have h := foldl_insertByKey_perm ((terms.map (fun (x : Nat × Bytes) => docFreq docs f x.2)).zip
+    (adjusted d f (maxOff terms) terms)) []
+  have h2 := h.map (·.2)
+  have e : (fun (x : Nat × Bytes) => match x with | (_, t) => docFreq docs f t)
+      = (fun (x : Nat × Bytes) => docFreq docs f x.2) := by
+    funext x; obtain ⟨o, t⟩ := x; rfl
+  rw [e]
+  refine h2.trans ?_
+  rw [List.append_nil, List.map_snd_zip]
+  · simp [adjusted]
+
+theorem adjusted_sorted {docs : List ADoc} (hw : DocsWf docs) {d : ADoc} (hd : d ∈ docs) (f mx : Nat)
+    (terms : List (Nat × Bytes)) : ∀ l ∈ adjusted d f mx terms, l.Pairwise (· ≤ ·) := by
+  intro l hl
+  unfold adjusted at hl
+  obtain ⟨ot, _, rfl⟩ := List.mem_map.mp hl
+  obtain ⟨o, t⟩ := ot
+  exact (positionsOf_sorted hw hd f t).map _ (fun a b h => by omega)
+
 theorem implPhrase_eq (scoring : Bool) (docs : List ADoc) (hw : DocsWf docs) (f : Nat)
     (terms : List (Nat × Bytes)) (slop : Nat) (hok : leafOk (.phrase f terms slop) = true)
     (d : ADoc) (hd : d ∈ docs) :
     implPhrase scoring docs f terms slop d = semPhrase d f terms slop := by
   unfold implPhrase
   by_cases hs : slop = 0
-  · simp [hs]
+  · subst hs
+    simp only [if_true]
+    split
+    · rename_i hc
+      have hlen : 2 ≤ terms.length := by
+        simp only [Bool.and_eq_true, decide_eq_true_eq] at hc; exact hc.1
+      have hperm := costOrder_perm docs d f terms
+      have hsorted : ∀ l ∈ costOrder docs d f terms, l.Pairwise (· ≤ ·) :=
+        fun l hl => adjusted_sorted hw hd f _ terms l (hperm.mem_iff.mp hl)
+      have hl2 : 2 ≤ (costOrder docs d f terms).length := by
+        rw [hperm.length_eq]; simp [adjusted]; exact hlen
+      have himpl := exact_impl_eq_spec (costOrder docs d f terms) hl2 hsorted
+      have hne : costOrder docs d f terms ≠ [] := by
+        intro h; rw [h] at hl2; simp at hl2
+      have hpe := phraseExact_perm _ _ hne hperm
+      have hsem : semPhrase d f terms 0 = phraseExact (adjusted d f (maxOff terms) terms) := by
+        simp [semPhrase]
+      rw [hsem, ← hpe]
+      cases scoring
+      · simpa using himpl.1
+      · simpa using himpl.2
+    · rfl
   · simp only [hs, if_false]
     by_cases hall : terms.all (fun x => hasTerm d f x.2) = true
     · have hlen : terms.length = 2 := by
